@@ -490,7 +490,7 @@ func c19Ops(rich bool) []HOp {
 }
 
 func c19(c *core.Ctx) {
-	c.Budget(100*time.Second, 12*time.Minute)
+	c.Budget(150*time.Second, 12*time.Minute)
 	c.SetRule("breadth-first search over histories of create (perm x mode incl. OTRUNC) / mkdir / open (4-7 modes) / read+write through the open fid at offsets {0,1,3,6} x lengths {0,1,5} / close / truncate / chmod / rename / several of these in one wstat / remove on paths {a, b, d, d/a} through a real ufs session on a private temp tree, (every explored history is followed, on its discarded instance, by probe requests through the live fid: chmod, read, truncate) mirrored step by step on a twin directory with the equivalent direct OS calls from an independent 9P->host table; after every step: both agree on success, data read through the fid equals the twin's, the exported tree equals the twin (names, types, permission bits, contents), and listings, stats and contents obtained through freshly walked fids equal the host's own view of the export (incl. whole-second mtime); states with equal twin tree + open fid are merged")
 	c.Assume("runs as root on tmpfs (no permission denials); both trees live in the same process (same umask)", "one live fid per renamed/removed file; renaming a directory above the open file is outside the statement")
 	ops := c19Ops(!c.Quick())
